@@ -170,7 +170,7 @@ pub fn explains(f: &Finding, sc: &Scenario, v: &Violation, root_text: &str) -> b
         // entry never carries the `./` the complete program demands. Explains missing entries
         // only (never an extra one), and only for such globs.
         "curdir-prefix-yields-nothing" => {
-            matches!(&w.source, Source::Glob { expr, rooted: false } if first_component(expr) == ".")
+            matches!(&w.source, Source::Glob { expr, rooted: false } if dot_kind(first_component(expr)) == Some("."))
                 && !v.items.is_empty()
                 && v.items.iter().all(|i| i.starts_with("missing:"))
         },
@@ -193,10 +193,11 @@ pub fn explains(f: &Finding, sc: &Scenario, v: &Violation, root_text: &str) -> b
             let texts = crate::exec::subst_pattern(pf, root_text).texts();
             // ... and only for the expression shapes this finding is about (so that another defect
             // that makes some *other* shape claim Always is still reported)
-            let exhaustive: Vec<wax::Glob> = texts
+            let flat: Vec<String> = texts.iter().flat_map(|t| crate::oracle::flatten_alternatives(t)).collect();
+            let exhaustive: Vec<wax::Glob> = flat
                 .iter()
                 .filter(|t| f6_shape(t))
-                .filter_map(|t| wax::Glob::new(t).ok())
+                .filter_map(|t| wax::Glob::new(t).ok().map(|g| g.into_owned()))
                 .filter(|g| matches!(g.is_exhaustive(), wax::query::When::Always))
                 .collect();
             !v.items.is_empty()
